@@ -219,6 +219,7 @@ class NumpyProxy(types.ModuleType):
         na = _numeric_or_none(a)
         nb = _numeric_or_none(b)
         if na is not None and nb is not None:
+            self.lstsq_records.append(dict(a=na.copy(), b=nb.copy(), rank=None, numeric=True))
             return _np.linalg.lstsq(na, nb, rcond=rcond)
         if na is None:
             raise SymError("lstsq with a symbolic design matrix is not supported by the exact stub")
